@@ -365,6 +365,60 @@ Qed.
 Lemma sort_desc_idem : forall (A : Type) (key : A -> Q) l, sort_desc key (sort_desc key l) = sort_desc key l.
 Proof. intros A key l. apply sort_desc_fixed. apply sort_desc_sorted. Qed.
 
+
+Lemma filter_head_in : forall (A : Type) (p : A -> bool) l x r, filter p l = x :: r -> In x l.
+Proof. intros A p l x r H. assert (I : In x (filter p l)) by (rewrite H; left; reflexivity). apply filter_In in I. tauto. Qed.
+
+(* sorted + stable determine the list: two priority-ordered lists with the same key classes (as sequences) are equal *)
+Lemma sorted_classes_unique : forall (A : Type) (key : A -> Q) l1 l2,
+  sorted_desc key l1 -> sorted_desc key l2 ->
+  (forall q, filter (fun y => Qeq_bool (key y) q) l1 = filter (fun y => Qeq_bool (key y) q) l2) -> l1 = l2.
+Proof.
+  intros A key l1. induction l1 as [|x l1 IH]; intros l2 S1 S2 H.
+  - destruct l2 as [|y l2]; [reflexivity|].
+    specialize (H (key y)). cbn [filter] in H. rewrite (proj2 (Qeq_bool_iff _ _) (Qeq_refl _)) in H. discriminate.
+  - destruct l2 as [|y l2].
+    + specialize (H (key x)). cbn [filter] in H. rewrite (proj2 (Qeq_bool_iff _ _) (Qeq_refl _)) in H. discriminate.
+    + destruct S1 as [F1 S1]. destruct S2 as [F2 S2].
+      assert (Exy : x = y).
+      { pose proof (H (key x)) as Hx. cbn [filter] in Hx.
+        rewrite (proj2 (Qeq_bool_iff _ _) (Qeq_refl _)) in Hx.
+        destruct (Qeq_bool (key y) (key x)) eqn:E; [congruence|].
+        pose proof (H (key y)) as Hy. cbn [filter] in Hy.
+        rewrite (proj2 (Qeq_bool_iff _ _) (Qeq_refl _)) in Hy.
+        assert (E' : Qeq_bool (key x) (key y) = false).
+        { destruct (Qeq_bool (key x) (key y)) eqn:E2; [|reflexivity].
+          apply Qeq_bool_iff in E2. symmetry in E2. apply Qeq_bool_iff in E2. congruence. }
+        rewrite E' in Hy.
+        symmetry in Hx. apply filter_head_in in Hx. apply filter_head_in in Hy.
+        rewrite Forall_forall in F1, F2. specialize (F1 _ Hy). specialize (F2 _ Hx). cbn beta in F1, F2.
+        exfalso. apply Qeq_bool_neq in E. apply E. lra. }
+      subst y. f_equal. apply IH; [assumption|assumption|].
+      intro q. specialize (H q). cbn [filter] in H.
+      destruct (Qeq_bool (key x) q); [congruence|exact H].
+Qed.
+
+(* the priority list is the ONLY list that is sorted by the key and keeps every key class in input order *)
+Lemma sort_desc_unique : forall (A : Type) (key : A -> Q) l l',
+  sorted_desc key l' ->
+  (forall q, filter (fun y => Qeq_bool (key y) q) l' = filter (fun y => Qeq_bool (key y) q) l) ->
+  l' = sort_desc key l.
+Proof.
+  intros A key l l' S H. apply sorted_classes_unique with (key := key); [exact S|apply sort_desc_sorted|].
+  intro q. rewrite sort_desc_stable. apply H.
+Qed.
+
+Lemma sorted_chain_conservation : forall (key : feeder -> Q) l g f, Forall feeder_ok l -> 0 <= g -> 0 <= f ->
+  let '(_, g', f') := feed_chain (sort_desc key l) g f in
+  (0 <= g' /\ 0 <= f') /\
+  sumq (map fst (used_chain (sort_desc key l) g f)) + g' == g /\
+  sumq (map snd (used_chain (sort_desc key l) g f)) + f' == f /\
+  Forall (fun u => 0 <= fst u /\ 0 <= snd u) (used_chain (sort_desc key l) g f).
+Proof.
+  intros key l g f H Hg Hf. apply chain_conservation; try assumption.
+  eapply Permutation_Forall; [apply sort_desc_perm|exact H].
+Qed.
+
 (* ================================================================== C06: month step *)
 
 Definition static_ok (st : sstatic) : Prop :=
